@@ -1,2 +1,151 @@
+/* linq driver (C14, C01): the real queue on a real directory, virtual clock */
 #include "kdrv.h"
-int drv_linq(void) { return 2; }
+
+static int name_cmp(const void *a, const void *b) {
+  long x = strtol(*(char *const *)a, NULL, 10), y = strtol(*(char *const *)b, NULL, 10);
+  return x < y ? -1 : x > y;
+}
+
+static int dir_count(const char *path) {
+  DIR *d = opendir(path);
+  if (!d) {
+    return 0;
+  }
+  int n = 0;
+  struct dirent *e;
+  while ((e = readdir(d))) {
+    if (strcmp(e->d_name, ".") && strcmp(e->d_name, "..")) {
+      ++n;
+    }
+  }
+  closedir(d);
+  return n;
+}
+
+static void dump(const char *path) {
+  char *names[4096];
+  int n = 0;
+  DIR *d = opendir(path);
+  if (d) {
+    struct dirent *e;
+    while ((e = readdir(d)) && n < 4096) {
+      if (strcmp(e->d_name, ".") && strcmp(e->d_name, "..")) {
+        names[n++] = strdup(e->d_name);
+      }
+    }
+    closedir(d);
+  }
+  qsort(names, n, sizeof names[0], name_cmp);
+  printf("dump %d", n);
+  for (int i = 0; i < n; ++i) {
+    char p[8192], tgt[8192];
+    snprintf(p, sizeof p, "%s/%s", path, names[i]);
+    ssize_t k = readlink(p, tgt, sizeof tgt - 1);
+    struct stat st;
+    lstat(p, &st);
+    printf(" %s:", names[i]);
+    print_hexn(tgt, k < 0 ? 0 : k);
+    printf(":%ld", (long)st.st_mtime);
+    free(names[i]);
+  }
+  printf("\n");
+}
+
+int drv_linq(void) {
+  struct trace *trace = create_trace();
+  struct linq *linq = NULL;
+  char qpath[4096];
+  snprintf(qpath, sizeof qpath, "%s/q", g_root ? g_root : "/nonexistent");
+  long deb = 0, lenguess = 16;
+  char *line = NULL;
+  size_t cap = 0;
+  char *t[64];
+  while (getline(&line, &cap, stdin) > 0) {
+    int n = split(line, t, 64);
+    if (!n) {
+      continue;
+    }
+    if (!strcmp(t[0], "case")) {
+      printf("case %s\n", n > 1 ? t[1] : "");
+      free_linq(linq);
+      linq = NULL;
+      rm_rf(qpath);
+      wrap_reset();
+      W.root = g_root;
+    } else if (!strcmp(t[0], "lq_load")) {
+      deb = atol(t[1]);
+      lenguess = n > 3 ? atol(t[3]) : 16;
+      free_linq(linq);
+      linq = load_linq(qpath, deb, atol(t[2]), lenguess, trace);
+      printf(ok(trace) ? "load ok\n" : "load err\n");
+    } else if (!strcmp(t[0], "lq_reload")) {
+      free_linq(linq);
+      linq = load_linq(qpath, deb, atol(t[1]), lenguess, trace);
+      if (!ok(trace)) {
+        printf("reload err\n");
+      }
+    } else if (!strcmp(t[0], "lq_push")) {
+      char *p = unhex(t[1]);
+      push(p, strtoul(t[2], NULL, 10), linq, trace);
+      printf(ok(trace) ? "push ok\n" : "push err\n");
+      free(p);
+    } else if (!strcmp(t[0], "lq_head")) {
+      struct linq_head *h = get_head(linq, trace);
+      if (!ok(trace) || !h) {
+        printf("head err\n");
+      } else if (get_pause(h)) {
+        printf("head pause %ld\n", (long)get_pause(h));
+      } else {
+        printf("head ready ");
+        print_hex(get_path(h));
+        printf(" %zu\n", get_metadata(h));
+      }
+      free_linq_head(h);
+    } else if (!strcmp(t[0], "lq_pop")) {
+      if (dir_count(qpath) == 0) {
+        printf("pop abort\n"); /* pop_head asserts size > 0 */
+      } else {
+        pop_head(linq, trace);
+        printf(ok(trace) ? "pop ok\n" : "pop err\n");
+      }
+    } else if (!strcmp(t[0], "lq_drain")) {
+      /* the queue part of handle_timeout: take heads until asked to wait */
+      for (;;) {
+        struct linq_head *h = get_head(linq, trace);
+        if (!ok(trace) || !h) {
+          printf("drain err\n");
+          break;
+        }
+        if (get_pause(h)) {
+          printf("drain pause %ld\n", (long)get_pause(h));
+          free_linq_head(h);
+          break;
+        }
+        printf("stored ");
+        print_hex(get_path(h));
+        printf(" %zu\n", get_metadata(h));
+        pop_head(linq, trace);
+        free_linq_head(h);
+        if (!ok(trace)) {
+          printf("drain err\n");
+          break;
+        }
+      }
+    } else if (!strcmp(t[0], "lq_redeb")) {
+      deb = atol(t[1]);
+      redebounce(deb, linq);
+    } else if (!strcmp(t[0], "lq_tick")) {
+      W.clock += atol(t[1]);
+    } else if (!strcmp(t[0], "lq_dump")) {
+      dump(qpath);
+    } else {
+      fprintf(stderr, "linq: bad line %s\n", t[0]);
+      return 2;
+    }
+    clear_trace(trace);
+  }
+  free_linq(linq);
+  rm_rf(qpath);
+  fflush(stdout);
+  return 0;
+}
